@@ -97,6 +97,17 @@ namespace verif
         }
         std::string take() { std::string s; s.swap(oplog); return s; }
         std::size_t live_count() const { std::size_t n = 0; for (auto& b : blocks) n += b.live; return n; }
+        // blocks are never reused, so memory returned upstream must still carry the 0xEE pattern at exit:
+        // anything else is a write into memory the allocator no longer owns
+        std::size_t stale_writes() const
+        {
+            std::size_t n = 0;
+            for (auto& b : blocks)
+                if (!b.live)
+                    for (std::size_t i = 0; i < b.size; ++i)
+                        if ((unsigned char)base[b.off + i] != 0xEE) { ++n; break; }
+            return n;
+        }
     };
 
     inline upstream_state& up() { static upstream_state s; return s; }
